@@ -129,6 +129,8 @@ def check(ctx, rep):
     from .c02 import addcb_rule
     from .c13 import flatten_rule
     addcb_rule(ctx, rep)
+    from .c02 import dispatch_rule
+    dispatch_rule(ctx, rep)
     flatten_rule(ctx, rep)
 
 
